@@ -88,7 +88,11 @@ func runDeterminism(c detCase) (o detObs) {
 					rc.ReportSchemaIri, rc.LexicalSchemaIri = altReportSchema, altLexicalSchema
 					key = c.ID + "|report-alt"
 				}
-				for k := 0; k < 3; k++ {
+				rounds := 3
+				if len(c.Data) < 50000 {
+					rounds = 12 // small inputs: more overlapping calls under the two configurations
+				}
+				for k := 0; k < rounds; k++ {
 					rep, err := pkg.ValidateWithConfiguration(c.Profile, c.Data, false, nil, clockA, rc)
 					if err != nil {
 						return
